@@ -350,6 +350,20 @@ def build_cases(gen, rng, tier):
             {"name": G.ident("a"), "ty": LT("Fail"), "attr": None}, {"name": G.ident("b"), "ty": LT("u8"), "attr": None}]}},
         {"kind": "struct", "name": nm(2), "params": [], "fields": {"kind": "tuple", "list": [{"name": None, "ty": ["vec", A(0)], "attr": None}]}}]
     add("failing-field", its, [A(0), A(1), A(2)])
+    F, U8 = LT("Fail"), LT("u8")
+    fl = lambda kind, tys: {"kind": kind, "list": [{"name": G.ident("f%d" % i) if kind == "named" else None, "ty": t, "attr": None}
+                                                   for i, t in enumerate(tys)]}
+    for kind in ("tuple", "named"):
+        its = [{"kind": "struct", "name": nm(0), "params": [], "fields": fl(kind, [F])},
+               {"kind": "struct", "name": nm(1), "params": [], "fields": fl(kind, [U8, F])},
+               {"kind": "struct", "name": nm(2), "params": [], "fields": fl(kind, [F, U8, U8])},
+               {"kind": "enum", "name": nm(3), "params": [], "variants": [
+                   {"name": G.ident("V0"), "fields": fl("tuple", [U8, F, U8])}, {"name": G.ident("V1"), "fields": fl("named", [F, U8])},
+                   {"name": G.ident("V2"), "fields": fl(kind, [U8, F])}]},
+               {"kind": "struct", "name": nm(4), "params": [], "fields": fl(kind, [U8, A(1), U8])},
+               {"kind": "struct", "name": nm(5), "params": [], "fields": fl(kind, [["vec", A(3)], ["opt", A(0)]])}]
+        its[2]["fields"]["list"][2]["attr"] = ["skip"]
+        add("failing-field-" + kind, its, [A(0), A(1), A(2), A(3), A(4), A(5)])
     # enums mixing variant kinds
     shapes_pool = [("unit", 0), ("tuple", 0), ("named", 0), ("tuple", 1), ("tuple", 2), ("tuple", 3), ("named", 1), ("named", 2), ("named", 4), ("tuple", 4)]
     for rep in range(6 if tier == "quick" else 20):
@@ -530,7 +544,104 @@ def build_cases(gen, rng, tier):
             vs = [{"name": G.ident("V%d" % i), "fields": pat_fields(kind, pat)} for i, pat in enumerate(pats[k:k + 6])]
             items = [inner_item(), {"kind": "enum", "name": nm(1), "params": [], "variants": vs}]
             add("skipfmt-enum-%s" % kind, items, [A(1)])
+    # --- G. generic items: type / lifetime / const parameters, inline bounds AND user-written where clauses in all
+    #        combinations; the derive must add its inferred `FieldTy: Debug` predicates to whatever the user wrote
+    #        (compiled twice as usual: a missing bound is a compile error of the derive_more twin only)
+    combos = [(lt, cn, inl, wh) for lt in (0, 1) for cn in (0, 1) for inl in (0, 1) for wh in (0, 1)]
+    for rep, (lt, cn, inl, wh) in enumerate(combos * (2 if tier == "quick" else 6)):
+        case = {"items": []}
+        params = ["T", "U"][:1 + rep % 2] if (rep % 5) else []
+        shape = ["tuple", "named", "enum"][rep % 3]
+        if shape == "enum":
+            it = gen.enum(case, nm(0), [("unit", 0), ("tuple", 2), ("named", 2)], [], params, depth=0, p_adt=0)
+            if params:
+                it["variants"][2]["fields"]["list"].append({"name": G.ident("more"), "ty": ["vec", ["param", params[0]]], "attr": None})
+        else:
+            it = gen.struct(case, nm(0), shape, max(len(params), 1) + rep % 2, [], params, depth=0, p_adt=0)
+            if params and len(it["fields"]["list"]) > len(params):
+                it["fields"]["list"][-1]["ty"] = rng.choice([["vec", ["param", params[-1]]], ["opt", ["param", params[0]]],
+                                                               ["tup", [["leaf", "i32"], ["param", params[0]]]]])
+        decorate_generics(rng, it, lt, cn, inl, wh)
+        if rep % 4 == 3 and shape != "enum":          # some with a skipped field: the std twin is hand-written
+            it["fields"]["list"][-1]["attr"] = [rng.choice(["skip", "ignore"])]
+        args = [rng.choice(CLONEABLE) for _ in params]
+        add("generics-lt%d-const%d-inline%d-where%d" % (lt, cn, inl, wh), [it], [A(0, args)])
+    # --- H. `&'a X` next to a plainly printed `X` mentioning a type parameter (struct / enum, tuple / named, both orders):
+    #        derive_more's predicates `X: Debug` and `&'a X: Debug` together make rustc reject the impl ("lifetime may not
+    #        live long enough") while std's derive compiles - KNOWN FINDING `ref-to-param-bound-conflict`; if it is ever
+    #        repaired these cases simply run like all others
+    T_ = ["param", "T"]
+    for xi, X in enumerate([T_, T_, ["vec", T_]] if tier == "quick" else [T_, T_, ["vec", T_], ["opt", T_], ["tup", [T_, LT("u8")]]]):
+        for kind in ("tuple", "named"):
+            for order in (0, 1):
+                for as_enum in (0, 1):
+                    if tier == "quick" and xi == 1 and (order + as_enum) % 2:
+                        continue
+                    tys = [X, ["lref", "'a", X]] if order == 0 else [["lref", "'a", X], X]
+                    if xi == 1:
+                        tys.append(LT("i32"))
+                    fs = {"kind": kind, "list": [{"name": G.ident("f%d" % i) if kind == "named" else None, "ty": t, "attr": None}
+                                                 for i, t in enumerate(tys)]}
+                    if as_enum:
+                        it = {"kind": "enum", "name": nm(0), "params": ["T"], "variants": [
+                            {"name": G.ident("V0"), "fields": {"kind": "unit", "list": []}}, {"name": G.ident("V1"), "fields": fs}]}
+                    else:
+                        it = {"kind": "struct", "name": nm(0), "params": ["T"], "fields": fs}
+                    it["generics"] = {"lts": ["'a"], "consts": [], "inline": {}, "where": []}
+                    add("refparam-%s-%s" % ("enum" if as_enum else "struct", kind), [it], [A(0, [LT(rng.choice(["i32", "u8", "str"]))])])
     return cases
+
+
+CLONEABLE = [["leaf", "i32"], ["leaf", "u8"], ["leaf", "f64"], ["leaf", "str"], ["leaf", "String"], ["leaf", "bool"], ["leaf", "char"],
+             ["vec", ["leaf", "i32"]], ["opt", ["leaf", "u8"]], ["leaf", "ML"], ["leaf", "AltAware"], ["leaf", "Pad"], ["leaf", "Edge"],
+             ["tup", [["leaf", "i32"], ["leaf", "str"]]], ["box", ["leaf", "i64"]]]
+
+
+def decorate_generics(rng, it, lt=False, const=False, inline=False, where=False):
+    """add a lifetime / const parameter (each used by a new field), inline bounds and a user-written where clause"""
+    def target_fields():
+        if it["kind"] == "struct":
+            return it["fields"] if it["fields"]["kind"] != "unit" else None
+        for v in it["variants"]:
+            if v["fields"]["kind"] != "unit":
+                return v["fields"]
+        return None
+
+    def add_field(t):
+        fs = target_fields()
+        fs["list"].append({"name": G.ident("g%d" % len(fs["list"])) if fs["kind"] == "named" else None, "ty": t, "attr": None})
+
+    g = {"lts": [], "consts": [], "inline": {}, "where": []}
+    ps = it["params"]
+    if target_fields() is not None:
+        if lt:
+            g["lts"].append("'a")
+            # NOT `&'a T` next to a plainly printed `T`: derive_more's predicates `T: Debug` and `&'a T: Debug` together make
+            # rustc pick the where-clause candidate for `&'_ T: Debug` and reject the impl ("lifetime may not live long
+            # enough") although std's derive compiles - reported to the coordinator as class `ref-to-param-bound-conflict`
+            # and held back from the corpus until it is fixed or listed
+            add_field(["lref", "'a", ["opt", ["box", ["param", ps[0]]]] if ps and rng.random() < 0.6 else ["leaf", "i32"]])
+        if const:
+            g["consts"].append(["N", 2])
+            add_field(["carr", ["param", ps[-1]] if ps and rng.random() < 0.6 else ["leaf", "u8"], "N", 2])
+    traits = ["Clone", "Default", "PartialEq"]
+    if inline and ps:
+        for p_ in ps:
+            if rng.random() < 0.7:
+                g["inline"][p_] = rng.sample(traits, rng.randrange(1, 3))
+        if not g["inline"]:
+            g["inline"][ps[0]] = ["Clone"]
+    if where and ps:
+        for p_ in rng.sample(ps, rng.randrange(1, len(ps) + 1)):
+            g["where"].append("%s: %s" % (p_, " + ".join(rng.sample(traits, rng.randrange(1, 3)))))
+        if rng.random() < 0.4:
+            g["where"].append("Vec<%s>: Clone" % ps[0])
+        if g["lts"] and rng.random() < 0.5:
+            g["where"].append("%s: 'a" % ps[0])
+    elif where and g["consts"]:
+        g["where"].append("[u8; N]: Clone")
+    it["generics"] = g
+    return it
 
 
 def bare_some(gen, rng, fs, p=0.3):
@@ -558,6 +669,7 @@ def extra_decision_items(gen, rng, n):
                                           ["box", ["param", "T"]], ["arr", ["param", params[-1]], 2]])
             gen.add_attrs(it["fields"], p_skip=rng.choice([0, 0.3]), p_fmt=rng.choice([0, 0.3]))
             bare_some(gen, rng, it["fields"])
+            decorate_generics(rng, it, rng.random() < 0.3, rng.random() < 0.3, rng.random() < 0.4, rng.random() < 0.6)
             # every type parameter must still be used by some field: guaranteed by must_use (attributes do not remove fields)
             case["items"].append(it)
             out.append(case)
@@ -603,18 +715,17 @@ def decision_tie(chk, inproc, cases, sites):
         for (name, fs) in item_units(it):
             exprs.append("generate_body %s %s" % (sites_coq(sites), G.expansion_coq(name, fs)))
     terms = common.coq_eval(["Verif.C06.Model"], exprs, batch=300, tag="c06d")
-    bexprs = []
-    for (_, _, case, it) in work:
-        for (name, fs) in item_units(it):
-            bexprs.append(G.bounds_coq(name, fs))
+    bexprs = [G.item_where_coq(it) for (_, _, case, it) in work]
     bterms = common.coq_eval(["Verif.C06.Model"], bexprs, batch=300, tag="c06b")
+    wi = 0
     bad_items = set()
     k = 0
     n = 0
     for (ci, ii, case, it), r in zip(work, resps):
         units = item_units(it)
         mts = terms[k:k + len(units)]
-        bts = bterms[k:k + len(units)]
+        wt = bterms[wi]
+        wi += 1
         k += len(units)
         src = item_source(case, it)
         if "ok" not in r:
@@ -633,11 +744,15 @@ def decision_tie(chk, inproc, cases, sites):
         # generate_bounds: the model's predicates (per struct / variant, in order) vs the where clause of the real expansion
         inv = {v: kk for kk, v in G.TRAIT_COQ.items()}
         want_where = []
-        for (name, fs), bt in zip(units, bts):
-            for (j, tr) in bt:
-                want_where.append((G.ty_rs(case, fs["list"][j]["ty"]) + ":derive_more::core::fmt::" + inv[tr]).replace(" ", ""))
+        user_where = (it.get("generics") or {}).get("where", [])
+        for wp in wt:          # Model.impl_where_clause: WUser k | WField (unit, (field, trait)), in order
+            if wp[0] == "WUser":
+                want_where.append(user_where[wp[1]].replace(" ", ""))
+            else:
+                (u_, (j, tr)) = wp[1]
+                want_where.append((G.ty_rs(case, units[u_][1]["list"][j]["ty"]) + ":derive_more::core::fmt::" + inv[tr]).replace(" ", ""))
         got_where = [w_.replace(" ", "") for i_ in r["items"] for w_ in i_.get("where", [])]
-        chk.bump("bounds:%s" % ("some" if want_where else "none"))
+        chk.bump("bounds:%s%s" % ("some" if len(want_where) > len(user_where) else "none", "+user-where" if user_where else ""))
         if want_where != got_where:
             chk.violation("tie-bounds-model", {"item": src, "model": want_where, "real": got_where},
                           "Coq generate_bounds disagrees with the where clause of the real expansion of %s: model %s, real %s" % (src, want_where, got_where))
@@ -711,6 +826,17 @@ def strip_non_exhaustive(t):
     for rx, rep in _NE:
         t = rx.sub(rep, t)
     return t
+
+
+def has_ref_param_conflict(it):
+    """a plainly printed field of type `&'lt X` next to a plainly printed field of type `X`, X mentioning a type parameter"""
+    units = [it["fields"]] if it["kind"] == "struct" else [v["fields"] for v in it["variants"]]
+    for fs in units:
+        plain = [f["ty"] for f in fs["list"] if f["attr"] is None]
+        for t in plain:
+            if t[0] == "lref" and G.ty_generic(t[2]) and any(u == t[2] for u in plain):
+                return True
+    return False
 
 
 def mode_of(spec):
@@ -787,10 +913,17 @@ def run(tier, seed, replay):
             if flavour and cid is not None:
                 where[ln] = (flavour, cid)
         hit = {}
-        for m in re.finditer(r"--> src/main\.rs:(\d+):", err or ""):
-            if int(m.group(1)) in where:
-                fl, c = where[int(m.group(1))]
-                hit.setdefault(live[c], set()).add(fl)
+        kinds = {}
+        for block in re.split(r"\n(?=error)", err or ""):
+            m = re.search(r"--> src/main\.rs:(\d+):", block)
+            if not m or int(m.group(1)) not in where:
+                continue
+            fl, c = where[int(m.group(1))]
+            hit.setdefault(live[c], set()).add(fl)
+            kind = ("lifetime" if "lifetime may not live long enough" in block else
+                    "e0283" if "E0283" in block else
+                    "e0277-debug" if "E0277" in block and "Debug" in block else "other")
+            kinds.setdefault(live[c], set()).add(kind)
         if not hit or attempt == 2:
             os.makedirs(os.path.join(common.BUILD, "c06"), exist_ok=True)
             keep = os.path.join(common.BUILD, "c06", "failed_main.rs")
@@ -798,10 +931,18 @@ def run(tier, seed, replay):
             raise common.BuildError("C06 generated crate does not build/run (source kept at %s):\n%s" % (keep, (err or "")[-3000:]))
         for ci, fls in hit.items():
             case = cases[ci]
-            rep = {"case": case, "leaves": [list(x) for x in leaves.items], "flavours": sorted(fls),
+            rep = {"case": case, "leaves": [list(x) for x in leaves.items], "flavours": sorted(fls), "error_kinds": sorted(kinds[ci]),
                    "items_rust": [G.item_rs(case, it, True) for it in case["items"]], "rustc": (err or "")[-1500:]}
             if fls == {"dm"}:
-                chk.violation("dm-expansion-does-not-compile", rep, "only the derive_more twin of %s fails to compile" % rep["items_rust"])
+                # the known class is exactly: only lifetime / E0283 errors, on an item holding `&'lt X` next to a plain `X`
+                # that mentions a type parameter
+                if kinds[ci] <= {"lifetime", "e0283"} and any(has_ref_param_conflict(it) for it in case["items"]):
+                    cls = "ref-to-param-bound-conflict"
+                elif kinds[ci] == {"e0277-debug"}:
+                    cls = "missing-debug-bound"
+                else:
+                    cls = "dm-expansion-does-not-compile"
+                chk.violation(cls, rep, "only the derive_more twin of %s fails to compile (%s)" % (rep["items_rust"], ", ".join(sorted(kinds[ci]))))
             else:
                 chk.violation("generator-compile-error", rep, "generated case does not compile under std's derive either: %s" % rep["items_rust"], no_input=True)
         live = [ci for ci in live if ci not in hit]
@@ -919,7 +1060,10 @@ def run(tier, seed, replay):
             # ---- the oracle: byte-for-byte against std
             if rdm != rsd:
                 causes = []
-                if strip_non_exhaustive(rdm) == strip_non_exhaustive(rsd):
+                if rdm.endswith("\x01ERR") != rsd.endswith("\x01ERR"):
+                    # model-independent: one side returns Err(fmt::Error) from `fmt`, the other Ok(())
+                    causes.append("fmt-result-mismatch")
+                elif strip_non_exhaustive(rdm) == strip_non_exhaustive(rsd):
                     # model-independent: the two texts differ only in `..` markers (finish vs finish_non_exhaustive)
                     causes.append("non-exhaustive-marker-mismatch")
                 elif G.value_has_raw(case, vv["v"]) and rdm.replace("r#", "") == rsd:
